@@ -45,10 +45,27 @@ def gen(seed, index):
             qs.append([k, a, b])
         else:
             qs.append([k])
+    if rng.random() < 0.15:
+        # second life: the envelope was edited before (prolonged past its end, cut); the reads are then asked of the edited object
+        pts, durs, total = env_points(e)
+        far = total + rng.choice([1, 2500000000, 10000000000])
+        a = rng.randint(0, max(0, total - 1))
+        qs.append(["after", rng.choice([["sample_at", far], ["extend_until", far], ["cut_out", a, far], ["cut_off", a, far],
+                                        ["sample_at", max(1, total // 2)], ["cut_out", a, max(a + 1, total - 1)]])])
     return ["envq", e] + qs
 
 
+def second_life(case):
+    return bool(case[-1]) and case[-1][0] == "after"
+
+
+def model_case(case):
+    return case[:-1] if second_life(case) else case
+
+
 def compare(case, mo, io):
+    if second_life(case):
+        return None        # the edited envelope is the implementation's own; the reads are judged by the oracle (live object vs untouched copy)
     for k, (q, a, b) in enumerate(zip(case[2:], mo[1:], io[1:])):
         if g.near_jump(case[1], int(q[1])) if len(q) > 1 else False:
             continue
@@ -60,7 +77,7 @@ def compare(case, mo, io):
 
 
 def oracle(case, io, mo):
-    n = len(case) - 2
+    n = len(case) - 2 - (1 if second_life(case) else 0)
     extra = io[1 + n:]
     for x in extra:
         if x[0] == "changed-after":
@@ -75,7 +92,7 @@ def oracle(case, io, mo):
 
 def nontrivial(case, io):
     e = case[1]
-    qs = case[2:]
+    qs = case[2:-1] if second_life(case) else case[2:]
     for i, q in enumerate(qs[:-1]):
         if q[0] in SHAPE_READS and any(g.in_curved_segment(e, int(t)) for t in q[1:]):
             return True
